@@ -32,7 +32,7 @@ contains
 KERNELS = {
     # out = 2*in1 + 3*in2 + s   (per DoF, W3, discontinuous)
     "c24_probe_w3_type": {
-        "module": "c24_probe_w3_mod", "space": "W3",
+        "module": "c24_probe_w3_mod", "space": "W3", "roles": "Fffr",
         "args": [("f", "write"), ("f", "read"), ("f", "read"), ("r", "read")],
         "meta": ["arg_type(gh_field,  gh_real, gh_write, w3)",
                  "arg_type(gh_field,  gh_real, gh_read,  w3)",
@@ -61,7 +61,7 @@ KERNELS = {
 """},
     # x = x + s*in1 + n   (scalar first, readwrite field, integer scalar last)
     "c24_axpn_w3_type": {
-        "module": "c24_axpn_w3_mod", "space": "W3",
+        "module": "c24_axpn_w3_mod", "space": "W3", "roles": "rFfi",
         "args": [("r", "read"), ("f", "readwrite"), ("f", "read"),
                  ("i", "read")],
         "meta": ["arg_type(gh_scalar, gh_real,    gh_read)",
@@ -91,7 +91,7 @@ KERNELS = {
     # out = out + in1 + s on every visit of a DoF (W0, continuous, gh_inc):
     # order independent because a visit only touches the visited DoF
     "c24_inc_w0_type": {
-        "module": "c24_inc_w0_mod", "space": "W0",
+        "module": "c24_inc_w0_mod", "space": "W0", "roles": "Ffr",
         "args": [("f", "inc"), ("f", "read"), ("r", "read")],
         "meta": ["arg_type(gh_field,  gh_real, gh_inc,  w0)",
                  "arg_type(gh_field,  gh_real, gh_read, w0)",
@@ -113,6 +113,34 @@ KERNELS = {
       end do
     end do
   end subroutine c24_inc_w0_code
+"""},
+    # out = in(centre cell of the stencil) + 8*stencil_size + n: the stencil
+    # EXTENT is an extra invoke argument written after the stencil field
+    # (role "e"); the stencil size seen by the kernel depends on it
+    "c24_sten_w3_type": {
+        "module": "c24_sten_w3_mod", "space": "W3", "roles": "Ffei",
+        "args": [("f", "write"), ("f", "read"), ("i", "read")],
+        "meta": ["arg_type(gh_field,  gh_real,    gh_write, w3)",
+                 "arg_type(gh_field,  gh_real,    gh_read,  w3, "
+                 "stencil(cross))",
+                 "arg_type(gh_scalar, gh_integer, gh_read)"],
+        "body": """  subroutine c24_sten_w3_code(nlayers, fout, fin, ssize, smap, n, ndf_w3, undf_w3, map_w3)
+    implicit none
+    integer(kind=i_def), intent(in) :: nlayers
+    integer(kind=i_def), intent(in) :: ndf_w3, undf_w3
+    integer(kind=i_def), dimension(ndf_w3), intent(in) :: map_w3
+    integer(kind=i_def), intent(in) :: ssize
+    integer(kind=i_def), dimension(ndf_w3, ssize), intent(in) :: smap
+    integer(kind=i_def), intent(in) :: n
+    real(kind=r_def), dimension(undf_w3), intent(inout) :: fout
+    real(kind=r_def), dimension(undf_w3), intent(in) :: fin
+    integer(kind=i_def) :: k, df
+    do k = 0, nlayers - 1
+      do df = 1, ndf_w3
+        fout(map_w3(df) + k) = fin(smap(df, 1) + k) + real(8 * ssize + n, r_def)
+      end do
+    end do
+  end subroutine c24_sten_w3_code
 """},
 }
 
@@ -170,6 +198,31 @@ contains
     end do
     write(*,'(A,1X,I0,1X,I0,1X,I0)') 'C24MULT', px%vspace%get_ncell(), ndf, nlayers
   end subroutine c24_mult
+  ! per-DoF size of the CROSS stencil of the given extent around the cell
+  ! that owns the DoF (W3 field), straight from the infrastructure
+  subroutine c24_ssize(f, extent)
+    use stencil_dofmap_mod, only: stencil_dofmap_type, STENCIL_CROSS
+    type(field_type), intent(in) :: f
+    integer(kind=i_def), intent(in) :: extent
+    type(field_proxy_type) :: px
+    type(stencil_dofmap_type), pointer :: smap
+    integer(kind=i_def), pointer :: sizes(:), map(:,:)
+    integer(kind=i_def) :: cell, k, df, ndf, nlayers
+    px = f%get_proxy()
+    smap => px%vspace%get_stencil_dofmap(STENCIL_CROSS, extent)
+    sizes => smap%get_stencil_sizes()
+    map => px%vspace%get_whole_dofmap()
+    ndf = px%vspace%get_ndf()
+    nlayers = px%vspace%get_nlayers()
+    px%data(:) = 0.0_r_def
+    do cell = 1, px%vspace%get_ncell()
+      do k = 0, nlayers - 1
+        do df = 1, ndf
+          px%data(map(df, cell) + k) = real(sizes(cell), r_def)
+        end do
+      end do
+    end do
+  end subroutine c24_ssize
   subroutine c24_dump_f(tag, name, space, f)
     character(len=*), intent(in) :: tag, name, space
     type(field_type), intent(in) :: f
@@ -210,6 +263,7 @@ DECLS = """  type :: state_type
     type(field_type) :: g
     real(kind=r_def) :: s
     integer(kind=i_def) :: n
+    integer(kind=i_def) :: e
   end type state_type
   type :: col_type
     type(field_type) :: f
@@ -220,12 +274,14 @@ DECLS = """  type :: state_type
   type(field_type) :: fa_1, state_f, f1_data, f2_proxy
   type(field_type) :: g1, g2, g3
   type(field_type) :: ga(2)
-  type(field_type) :: cell, mult_w0
+  type(field_type) :: cell, mult_w0, ssz1, ssz2
   type(state_type) :: state
   type(col_type)   :: cols(2)
   real(kind=r_def) :: a, b, df
   real(kind=r_def) :: sa(2)
   integer(kind=i_def) :: n, nlayers
+  integer(kind=i_def) :: e1, e2, state_e
+  integer(kind=i_def) :: ea(2)
   integer(kind=i_def) :: idx
   integer(kind=i_def), parameter :: i1 = 1, i2 = 2
 """
@@ -241,7 +297,16 @@ SPACE_OF = dict(FIELDS)
 # real scalars with their initial values (exactly representable)
 REALS = {"a": "2.0", "b": "0.5", "df": "3.0", "sa(1)": "-1.0", "sa(2)": "4.0",
          "state%s": "1.5"}
-INTS = {"n": 3, "nlayers": 5, "state%n": 2}
+INTS = {"n": 3, "nlayers": 5, "state%n": 2,
+        # usable as stencil extents (1 or 2 = the halo depth of the mesh);
+        # state_e is a decoy: the flattened name of state%e, other value
+        "e1": 1, "e2": 2, "state%e": 2, "state_e": 1, "ea(1)": 1, "ea(2)": 2}
+EXTENT_PLAIN = ["e1", "e2"]
+EXTENT_LITERALS = ["1", "2", "2_i_def"]
+AUX_FIELDS = [("mult_w0", "W0"), ("ssz1", "W3"), ("ssz2", "W3")]
+# the three argument forms of a stencil extent that the pinned PSyclone
+# mishandles (found by this check), plus the invoke-label clash
+DANGEROUS = ["extent_struct", "extent_array", "extent_dup", "label_clash"]
 INDEX_VARS = {"idx": 1}           # assigned by {"assign": ...} steps
 INDEX_PARAMS = {"i1": 1, "i2": 2}
 REAL_LITERALS = ["2.0_r_def", "1.0_r_def", "0.5_r_def", "-1.0_r_def",
@@ -330,7 +395,7 @@ def index_needed(store):
 # ---------------------------------------------------------- random programs
 def _pick_kernel(rnd, grow_left):
     m = rnd.random()
-    if m < 0.42:
+    if m < 0.45:
         return rnd.choice(sorted(KERNELS))
     names = sorted(BUILTINS)
     for _ in range(20):
@@ -343,31 +408,45 @@ def _pick_kernel(rnd, grow_left):
     return "X_plus_Y"
 
 
+def _norm(t):
+    return "".join(t.split()).lower()
+
+
+def generated_name(position, kernels):
+    """name the user guide / psyGen give the PSy routine of an UNNAMED invoke
+    at `position` (0-based) with the given kernel names"""
+    if len(kernels) == 1 and kernels[0].lower() in {
+            k.lower() for k in KERNELS}:
+        return "invoke_%d_%s" % (position, kernels[0].lower())
+    return "invoke_%d" % position
+
+
 def random_program(rnd, name="c24prog", ranks=1, ninvokes=None, style=None,
-                   p_dup=0.04):
+                   p_dup=0.04, danger=None):
     """Return a program description (JSON-able):
     {"name", "ranks", "steps": [{"assign": [var, int]} |
                                 {"invoke": <text of the call statement>,
                                  "meta": {...generator's own view...}}],
-     "forms": [...]}.
+     "forms": [...], "danger": None | one of DANGEROUS}.
     `style`: None (mixed), "plain" (distinct lower-case plain variables only:
     the hazard-free twin).  With probability `p_dup` the program may repeat
     the very same argument text inside one kernel call (PSyclone documents
-    that it refuses this)."""
+    that it refuses this).  `danger`: plant exactly one instance of one of
+    the DANGEROUS argument forms (at most one class per program)."""
     ninv = ninvokes or rnd.randint(1, 4)
     steps = []
     forms = set()
     idx_now = None
     grow_left = [1]
-    allow_dup = style != "plain" and rnd.random() < p_dup
-    allow_clash = style != "plain" and rnd.random() < 0.03
+    plain = style == "plain"
+    allow_dup = not plain and rnd.random() < p_dup
+    allow_clash = not plain and rnd.random() < 0.03
     # an upper-case kind suffix (1.0_R_DEF) makes PSyclone fail ("not a
     # recognised LFRic precision"): a refusal, so only a few programs try it
-    upper_lit = style != "plain" and rnd.random() < 0.03
-    plain = style == "plain"
-
-    def norm(t):
-        return "".join(t.split()).lower()
+    upper_lit = not plain and rnd.random() < 0.03
+    planted = [False]
+    danger_inv = rnd.randrange(ninv)
+    unnamed_positions = []
 
     for iv in range(ninv):
         ncalls = rnd.randint(1, 4)
@@ -388,6 +467,10 @@ def random_program(rnd, name="c24prog", ranks=1, ninvokes=None, style=None,
         calls = []
         texts = []
         seen_stores = set()
+        extent_norms = set()     # texts used as stencil extents
+        iarg_norms = set()       # texts used as integer kernel arguments
+        want_danger = (danger in ("extent_struct", "extent_array",
+                                  "extent_dup") and iv == danger_inv)
 
         def spelled(st, f2):
             """a spelling of st that is valid while idx == idx_inv"""
@@ -408,9 +491,10 @@ def random_program(rnd, name="c24prog", ranks=1, ninvokes=None, style=None,
 
         for kc in range(ncalls):
             kname = _pick_kernel(rnd, grow_left)
+            if want_danger and not planted[0] and kc == ncalls - 1:
+                kname = "c24_sten_w3_type"
             if kname in KERNELS:
-                roles = [(r.upper() if acc != "read" and r == "f" else r)
-                         for r, acc in KERNELS[kname]["args"]]
+                roles = list(KERNELS[kname]["roles"])
                 space = KERNELS[kname]["space"]
             else:
                 roles = list(BUILTINS[kname])
@@ -419,27 +503,30 @@ def random_program(rnd, name="c24prog", ranks=1, ninvokes=None, style=None,
             stores = []
             norms_here = set()
 
-            def choose(pool):
+            def choose(pool, avoid=()):
                 """(store, text) whose normalised text is new in this kernel
                 call (unless the program is allowed a duplicate)"""
-                for _ in range(40):
+                for _ in range(60):
                     st = rnd.choice(pool)
                     f2 = set()
                     tx = spelled(st, f2)
-                    if norm(tx) in norms_here:
+                    if _norm(tx) in avoid:
+                        continue
+                    if _norm(tx) in norms_here:
                         if not (allow_dup and rnd.random() < 0.5):
                             continue
                         forms.add("same_text_twice_in_kernel_call")
-                    norms_here.add(norm(tx))
+                    norms_here.add(_norm(tx))
                     forms.update(f2)
                     return st, tx
                 # pool exhausted: widen it
-                rest = [s for s in (FIELDS_W3 if pool and pool[0] in FIELDS_W3
-                                    else FIELDS_W0 if pool and pool[0] in
-                                    FIELDS_W0 else sorted(REALS))
-                        if norm(s) not in norms_here]
+                wide = (FIELDS_W3 if pool[0] in FIELDS_W3 else FIELDS_W0
+                        if pool[0] in FIELDS_W0 else sorted(REALS)
+                        if pool[0] in REALS else sorted(INTS))
+                rest = [x for x in wide if _norm(x) not in norms_here
+                        and _norm(x) not in avoid]
                 st = rnd.choice(rest)
-                norms_here.add(norm(st))
+                norms_here.add(_norm(st))
                 return st, st
 
             for r in roles:
@@ -457,15 +544,46 @@ def random_program(rnd, name="c24prog", ranks=1, ninvokes=None, style=None,
                             forms.add("literal_kind_upper_case")
                     else:
                         st, tx = choose(wsr)
+                elif r == "e":
+                    forms.add("stencil_extent")
+                    if want_danger and not planted[0] and \
+                            danger in ("extent_struct", "extent_array"):
+                        st = "state%e" if danger == "extent_struct" \
+                            else rnd.choice(["ea(1)", "ea(2)"])
+                        tx = st if plain else _vary_case(rnd, st)
+                        planted[0] = True
+                        forms.add("stencil_" + danger)
+                    elif want_danger and not planted[0]:
+                        # extent_dup: the same text is also the integer
+                        # argument that follows
+                        st = tx = rnd.choice(EXTENT_PLAIN)
+                    elif rnd.random() < 0.4:
+                        st = tx = rnd.choice(EXTENT_LITERALS)
+                        forms.add("literal")
+                    else:
+                        st = rnd.choice(EXTENT_PLAIN)
+                        tx = st if plain else _vary_case(rnd, st)
+                        if _norm(tx) in iarg_norms:
+                            st = tx = rnd.choice(EXTENT_LITERALS)
+                    if st in INTS:
+                        extent_norms.add(_norm(tx))
                 else:  # "i"
-                    if rnd.random() < 0.5:
+                    if want_danger and not planted[0] and \
+                            danger == "extent_dup" and roles[:3] == \
+                            ["F", "f", "e"]:
+                        st, tx = stores[-1], args[-1]
+                        planted[0] = True
+                        forms.add("stencil_extent_dup")
+                        iarg_norms.add(_norm(tx))
+                    elif rnd.random() < 0.5:
                         st = tx = rnd.choice(INT_LITERALS)
                         forms.add("literal")
                     else:
-                        st, tx = choose(sorted(INTS))
+                        st, tx = choose(sorted(INTS), avoid=extent_norms)
+                        iarg_norms.add(_norm(tx))
                 stores.append(st)
                 args.append(tx)
-            fs = [s for s, r in zip(stores, roles) if r in "Ff"]
+            fs = [x for x, r in zip(stores, roles) if r in "Ff"]
             if len(set(fs)) < len(fs):
                 forms.add("same_field_twice_in_kernel_call")
             if seen_stores & set(fs):
@@ -480,12 +598,23 @@ def random_program(rnd, name="c24prog", ranks=1, ninvokes=None, style=None,
                 for a in args).strip()))
             calls.append({"kern": kname, "stores": stores})
         nm = None
-        if rnd.random() < 0.5:
+        if danger == "label_clash" and not planted[0] and unnamed_positions:
+            # the label a user may legitimately choose equals the name
+            # PSyclone generates for an earlier unnamed invoke
+            nm = rnd.choice(unnamed_positions)
+            planted[0] = True
+            forms.add("named_invoke")
+            forms.add("label_equals_generated_name")
+        elif rnd.random() < 0.5 and not (danger == "label_clash"
+                                          and not planted[0]
+                                          and iv < ninv - 1):
             nm = rnd.choice(["my_invoke", "Step_%d" % (iv + 1), "invoke_mixed",
                              "UPDATE%d" % iv]) + ("_%d" % iv)
             forms.add("named_invoke")
         else:
             forms.add("unnamed_invoke")
+            unnamed_positions.append(generated_name(iv, [
+                c["kern"] for c in calls]))
         parts = list(texts)
         if nm is not None:
             q = rnd.choice(["'", '"'])
@@ -501,7 +630,7 @@ def random_program(rnd, name="c24prog", ranks=1, ninvokes=None, style=None,
             idx_now = idx_inv
         steps.append({"invoke": stmt, "meta": {"name": nm, "calls": calls}})
     return {"name": name, "ranks": ranks, "steps": steps,
-            "forms": sorted(forms)}
+            "forms": sorted(forms), "danger": danger if planted[0] else None}
 
 
 # ---------------------------------------------------------------- x90 text
@@ -526,8 +655,8 @@ def program_text(desc):
          "  use fs_continuity_mod,    only: W0, W3",
          "  use constants_mod,        only: r_def, i_def",
          "  use field_mod,            only: field_type",
-         "  use c24_util_mod,         only: c24_init, c24_mult, c24_dump_f, "
-         "c24_dump_r, c24_dump_i"]
+         "  use c24_util_mod,         only: c24_init, c24_mult, c24_ssize, "
+         "c24_dump_f, c24_dump_r, c24_dump_i"]
     for k in kern_used:
         L.append("  use %s, only: %s" % (KERNELS[k]["module"], k))
     L += ["  implicit none",
@@ -571,12 +700,14 @@ def program_text(desc):
               "%s%%get_last_dof_annexed()%s" % (
                   s, v, v, v, "".join(", %s%%get_last_dof_halo(%d)" % (v, d)
                                       for d in range(1, hd + 1)))]
-    for st, sp in FIELDS + [("mult_w0", "W0")]:
+    for st, sp in FIELDS + AUX_FIELDS:
         L.append("  call %s%%initialise(vector_space=%s_ptr, name='v%d')" % (
             st, _fs(sp), len(L)))
     for st, sp in FIELDS:
         L.append("  call c24_init(%s, %d_i_def)" % (st, PRIME_OF[st]))
-    L.append("  call c24_mult(mult_w0)")
+    L += ["  call c24_mult(mult_w0)",
+          "  call c24_ssize(ssz1, 1_i_def)",
+          "  call c24_ssize(ssz2, 2_i_def)"]
     for st in sorted(REALS):
         L.append("  %s = %s_r_def" % (st, REALS[st]))
     for st in sorted(INTS):
@@ -584,9 +715,9 @@ def program_text(desc):
     for st in sorted(INDEX_VARS):
         L.append("  %s = %d_i_def" % (st, INDEX_VARS[st]))
 
-    def dump(tag):
+    def dump(tag, aux=False):
         out = []
-        for st, sp in FIELDS + [("mult_w0", "W0")]:
+        for st, sp in FIELDS + (AUX_FIELDS if aux else []):
             out.append("  call c24_dump_f('%s', '%s', '%s', %s)" % (
                 tag, st, sp, st))
         for st in sorted(REALS):
@@ -595,7 +726,7 @@ def program_text(desc):
             out.append("  call c24_dump_i('%s', '%s', %s)" % (tag, st, st))
         out.append("  write(*,'(A)') 'END %s'" % tag)
         return out
-    L += dump("d0")
+    L += dump("d0", aux=True)
     ninv = 0
     for st in desc["steps"]:
         if "assign" in st:
